@@ -757,11 +757,12 @@ def group_families(R):
                     allowed4 = any(f in (socket.AF_UNSPEC, socket.AF_INET) for f in fams)
                     allowed6 = any(f in (socket.AF_UNSPEC, socket.AF_INET6) for f in fams)
                     if allowed4 != b4 or allowed6 != b6:
-                        kf = "kf_c20_both_families_disabled" if (not b4 and not b6) else None
+                        kf = None   # repaired in /repo (535fe10): if it comes back it is a violation
                         R.violation("families:%s:%s" % (b4, b6),
                                     "ipv4=%r ipv6=%r: getaddrinfo asked for family %s (IPv4 allowed=%s, IPv6 allowed=%s)" % (
                                         v4, v6, sorted(int(f) for f in fams), allowed4, allowed6),
-                                    {"kind": "families", "kw": kw_tokens(kw), "expected": "IPv4 allowed=%s IPv6 allowed=%s or refused" % (b4, b6),
+                                    {"kind": "families", "kw": kw_tokens(kw),
+                                     "expected": ("refused" if not (b4 or b6) else "IPv4 allowed=%s IPv6 allowed=%s or refused" % (b4, b6)),
                                      "observed": "families %s" % sorted(int(f) for f in fams), "failing_input_found": True}, kf)
 
 
